@@ -193,6 +193,77 @@ def dedup_case(rng, k):
     raise RuntimeError("no matching pair found")
 
 
+def _descending(g):
+    """consecutive ids reversed: the first-inserted component carries the largest ids (node ids not inserted ascending,
+    as for atom-mapped SMILES whose map numbers do not follow the atom order)"""
+    n = len(g["nodes"])
+    ids = [x[0] for x in g["nodes"]]
+    return GG.relabel(g, {old: n - k for k, old in enumerate(ids)})
+
+
+def _mol(atoms, bonds, first=1):
+    return {"nodes": [[first + i, {"element": el, "charge": 0, "hcount": h, "aromatic": False, "atom_map": first + i}] for i, (el, h) in enumerate(atoms)],
+            "edges": [[first + u, first + v, {"order": o}] for u, v, o in bonds]}
+
+
+ETHANOL = (("C", 3), ("C", 2), ("O", 1)), ((0, 1, 1), (1, 2, 1))
+DME = (("C", 3), ("O", 0), ("C", 3)), ((0, 1, 1), (1, 2, 1))
+ACETALD = (("C", 3), ("C", 1), ("O", 0)), ((0, 1, 1), (1, 2, 2))
+PATTERNS = [
+    _mol((("C", 2), ("O", 0)), ((0, 1, 1),)),                  # C-O
+    _mol((("C", 0), ("C", 0)), ((0, 1, 1),)),                  # C-C
+    _mol((("C", 0),), ()),                                    # one atom
+    _mol((("C", 0), ("O", 0)), ()),                           # two isolated atoms (disconnected pattern)
+    _mol((("C", 0), ("O", 0), ("C", 0)), ((0, 1, 1), (1, 2, 1)), first=0),   # C-O-C with node id 0
+]
+
+
+def repeated_species_cases(tier, rng):
+    """hosts with a repeated species of maximal size (the fast WL estimate identifies atoms ACROSS the copies, exact orbits
+    never do), other species in between, component blocks in ascending / descending / shuffled id order; match lists from
+    the engine in engine order, reversed and shuffled; plus the degenerate lists (empty, one match, matches with different
+    key sets, one match repeated)."""
+    from synkit.Graph.Matcher.subgraph_matcher import SubgraphSearchEngine as SSE
+    out = []
+    mixes = [(ETHANOL, DME, ETHANOL), (ETHANOL, ETHANOL), (DME, ETHANOL, DME, ETHANOL), (ACETALD, ETHANOL, ACETALD),
+             (ETHANOL, DME, ETHANOL, ACETALD, ETHANOL)]
+    k = 0
+    for mi, mix in enumerate(mixes):
+        base = disjoint(*[_mol(*m) for m in mix])
+        hosts = [("asc", base), ("desc", _descending(base)), ("shuf", GG.shuffle_insertion(GG.random_relabel(base, rng, lo=0, hi=40), rng))]
+        for hn, H in hosts:
+            for pi, P in enumerate(PATTERNS):
+                if tier == "quick" and (mi + pi) % 2 and hn == "shuf":
+                    continue
+                try:
+                    ms = SSE.find_subgraph_mappings(GG.to_nx(H), GG.to_nx(P), node_attrs=["element", "charge"], edge_attrs=["order"], strategy="all")
+                except Exception:
+                    continue
+                ms = [[[p, h] for p, h in m.items()] for m in ms][:60]
+                if not ms:
+                    continue
+                variants = [("engine", ms), ("reversed", ms[::-1])]
+                sh = list(ms)
+                rng.shuffle(sh)
+                variants.append(("shuffled", sh))
+                if tier == "quick":
+                    variants = variants[:2] if (mi + pi) % 2 else [variants[0], variants[2]]
+                for vn, v in variants:
+                    out.append(dict(kind="dedup", name="rep#%d/%s/p%d/%s" % (mi, hn, pi, vn), p=P, h=H, ms=v, shared=bool(k % 2)))
+                    k += 1
+    # the coordinator's wave-2 input, literally: C-O on ethanol . dimethyl ether . ethanol with descending ids
+    H = _descending(disjoint(_mol(*ETHANOL), _mol(*DME), _mol(*ETHANOL)))
+    P = PATTERNS[0]
+    out.append(dict(kind="dedup", name="rep/w2-2", p=P, h=H, ms=[[[1, 8], [2, 9]], [[1, 4], [2, 5]], [[1, 6], [2, 5]], [[1, 2], [2, 3]]]))
+    # degenerate match lists
+    out.append(dict(kind="dedup", name="degenerate/empty-list", p=P, h=H, ms=[]))
+    out.append(dict(kind="dedup", name="degenerate/one-match", p=P, h=H, ms=[[[1, 8], [2, 9]]]))
+    out.append(dict(kind="dedup", name="degenerate/same-match-thrice", p=P, h=H, ms=[[[1, 8], [2, 9]]] * 3, shared=True))
+    out.append(dict(kind="dedup", name="degenerate/different-key-sets", p=P, h=H,
+                    ms=[[[1, 8]], [[2, 9]], [[1, 8], [2, 9]], [], [[2, 3]], [[1, 2]], [[1, 2], [2, 3]], []]))
+    return out
+
+
 # ------------------------------------------------------------------ rule applications
 
 HAND = [
@@ -360,6 +431,7 @@ def gen_cases(tier, rng):
     # match lists
     for k in range(260 if tier == "quick" else 3000):
         cases.append(dedup_case(rng, k))
+    cases += repeated_species_cases(tier, rng)
     # rule applications
     cases += hand_cases(tier)
     cases += corpus_cases(tier, rng)
